@@ -104,6 +104,8 @@ type World struct {
 
 	real *realNet // calibration world: real net/http instead of the stub
 
+	sentRequests map[string]*connect.Request[Msg]
+
 	buildingClient bool
 	faultAssigned  bool
 	recoverErr     func(o *CallObs, v any) error
@@ -755,8 +757,15 @@ func (w *World) runCall(t *core.Task, o *CallObs) {
 			body = p.ReqMsgs[0]
 		}
 		req := connect.NewRequest(mkMsg(body))
+		if prev := w.sentRequests[p.ReuseRequestOf]; p.ReuseRequestOf != "" && prev != nil {
+			req = prev // the caller re-sends the same Request object
+		}
 		req.Header().Set(callHeader, p.ID)
 		merge(req.Header(), p.ReqHeader)
+		if w.sentRequests == nil {
+			w.sentRequests = map[string]*connect.Request[Msg]{}
+		}
+		w.sentRequests[p.ID] = req
 		r := OpRec{Op: "unary", Start: stepsNow(w.S), StartT: time.Now()}
 		res, err := client.CallUnary(ctx, req)
 		r.Err = err
